@@ -4,6 +4,8 @@ From Frugal Require Import Bytes Wire Skip Values Desc Spec Encode Decode Checks
 From Frugal.gen Require Import Params.
 From Frugal.proofs Require Import GenEncParams GenTables BytesWire EncodeSpec.
 From Frugal.props Require Import Examples.
+From Frugal Require Import DisciplineChecks.
+From Frugal.proofs Require Import GenEqual.
 Import ListNotations.
 
 Theorem C02_encode_is_put_denote : forall env sid v,
@@ -42,3 +44,8 @@ Proof. split; vm_compute; reflexivity. Qed.
    for what the translator read from the sources of this run *)
 Theorem C02_side_conditions : enc_params_ok = true /\ tables_ok = true.
 Proof. split; [exact enc_params_ok_holds | exact tables_ok_holds]. Qed.
+
+(* structural facts about the Go source which the hand-written model builds in (DisciplineChecks.v),
+   read from the source by the translator and re-proved on every run *)
+Theorem C02_model_assumptions : equal_ok = true.
+Proof. exact equal_ok_holds. Qed.
